@@ -755,6 +755,12 @@ func (t *Terminal) readLine() (line string, err error) {
 			}
 			line, lineOk = t.handleKey(key)
 		}
+		if len(rest) == len(t.inBuf) {
+			// a key sequence that cannot be decoded fills the whole input
+			// buffer: nothing could be read behind it (a read into no space
+			// returns at once, forever), so it is dropped like an unknown key
+			rest = nil
+		}
 		if len(rest) > 0 {
 			n := copy(t.inBuf[:], rest)
 			t.remainder = t.inBuf[:n]
